@@ -1164,6 +1164,8 @@ class Avr(Machine):
         self.r[20], self.r[21] = a2 & 0xFF, a2 >> 8
         self.saved = {i: self.r[i] for i in list(range(2, 18)) + [28, 29]}
         self.entry_spv = self.spv
+        # the caller may be an interrupt handler or inside an atomic block: the I flag is whatever it is, and comes back unchanged
+        self.sreg_i = self.entry_i = (junk[6] >> 3) & 1
 
     def run(self, entry, max_steps=400000):
         Machine.run(self, entry, max_steps)
@@ -1174,8 +1176,8 @@ class Avr(Machine):
             out.append("r1 (zero register) is not zero at return")
         if self.spv != self.entry_spv + 2:
             out.append("stack pointer after ret is 0x%x, expected 0x%x" % (self.spv, self.entry_spv + 2))
-        if not self.sreg_i:
-            out.append("interrupts left disabled at return")
+        if self.sreg_i != self.entry_i:
+            out.append("global interrupt flag is %d at return, it was %d on entry" % (self.sreg_i, self.entry_i))
         return out
 
     def check_access(self, addr, size, write):
